@@ -464,7 +464,7 @@ func c13Replay(pl json.RawMessage) (string, []core.Violation) {
 func init() {
 	core.Register(&core.PropSpec{
 		ID: "C13", Level: "model_checking",
-		Rule:     "mode product: every token sequence <= n (4 quick, 5 thorough) in space and LF layouts and every statement-family program (simple statements covering each ASI-relevant first token, compound forms with brace-less/block bodies, nested function expressions) in every layout with <= k deviations (k=1 quick, 2 thorough) is parsed in the 4 mode combinations: strict-accepted => tolerant yields the identical tree dump (positions, flags, comments) and no errors; without a line-initial ( or [ the smart flag changes nothing (tree, acceptance, error count); with one, smart == default on the text with ';' inserted before each line-initial INFIX bracket (prefix-position brackets unchanged); on rejected inputs tolerant reports the same first error as strict unless that error is a missing separator or an unclosed block; every fused statement pair (separator dropped, next token cannot continue) and every removal of a trailing run of statement-level closing braces is accepted by tolerant mode with the tree of the intact program. states = distinct states of the mode product (acceptance, error count and tree shape in each of the 4 modes), transitions = parses executed",
+		Rule:     "mode product: every token sequence <= n (4 quick, 5 thorough) in space and LF layouts and every statement-family program (simple statements covering each ASI-relevant first token, compound forms with brace-less/block bodies, nested function expressions) in every layout with <= k deviations (k=1 quick, 2 thorough) is parsed in the 4 mode combinations: strict-accepted => tolerant yields the identical tree dump (positions, flags, comments) and no errors; without a line-initial ( or [ the smart flag changes nothing (tree, acceptance, error count); with one, smart == default on the text with ';' inserted before each line-initial INFIX bracket (prefix-position brackets unchanged); on rejected inputs tolerant reports the same first error as strict unless that error is a missing separator or an unclosed block; every fused statement pair (separator dropped, next token cannot continue) and every removal of a trailing run of statement-level closing braces is accepted by tolerant mode with the tree of the intact program. states = distinct states of the mode product (acceptance, error count and tree shape in each of the 4 modes), transitions = parses executed Added: clause B also in tolerant+smart mode; open blocks also without the last / without all semicolons; multi-line tokens followed by ( [ . in 11 templates x 4 literals; the scale family.",
 		Assume:   []string{"bracket roles (infix vs prefix position) come from the harness unparser, cross-checked against goja by C02"},
 		QuickSec: 400, ThorSec: 3000, Run: c13Run, Replay: c13Replay,
 		Evals: "inputs", Nontriv: "accepted_programs", States: "distinct_mode_product_states", Trans: "mode_parses",
